@@ -607,6 +607,46 @@ def jank_bytes_catalogue(sel: int, vsel: int) -> bool:
     return same_kind and val == want and SER.serialize(got) == data
 
 
+@harness(pre=["n in (254, 255)", "(0 <= i0) & (i0 < 2**32)"], post="_", timeout=300,
+         note="block-count boundary: a Variable block repeated 254 / 255 times (the U8 count maximum; first entry symbolic, the "
+              "rest concrete) round-trips with every entry intact",
+         covers=COVERS)
+def block_count_boundary(n: int, i0: int) -> bool:
+    n = 254 if n == 254 else 255
+    ids = [i0] + [(7 * j) % 2**32 for j in range(1, n)]
+    msg = Message("PacketAck", *[Block("Packets", ID=x) for x in ids], packet_id=9)
+    data = SER.serialize(msg)
+    deser = UDPMessageDeserializer(settings=_SETTINGS)
+    got = deser.deserialize(data)
+    blocks = got["Packets"]
+    return len(blocks) == n and blocks[0]["ID"] == i0 and all(blocks[j]["ID"] == ids[j] for j in (1, n // 2, n - 1)) \
+        and len(data) == 6 + 4 + 1 + 4 * n
+
+
+@harness(pre=["0 <= tsel <= 2", "n in (6, 8, 10, 16)", "x in (1, 255)"], post="_", timeout=400,
+         note="zero-coded header peek with a long extra field of isolated zero bytes ((00 x) * n, n in {6,8,10,16}, x in {1,255}, "
+              "each zero doubling when zero-coded) for a Fixed / High / Low frequency message: the datagram the serializer "
+              "produces decodes to the same message, extra and flags",
+         covers=COVERS + (_M + "udpserializer:UDPMessageSerializer.zero_code_compress",
+                          _M + "udpdeserializer:UDPMessageDeserializer.zero_code_expand"))
+def zerocoded_long_extra(tsel: int, n: int, x: int) -> bool:
+    tsel = small(tsel, 0, 2)
+    n = small(n, 6, 16)
+    extra = bytes([0, x]) * n
+    if tsel == 0:
+        msg = Message("PacketAck", Block("Packets", ID=5), packet_id=3, flags=0x80)
+    elif tsel == 1:
+        msg = Message("StartPingCheck", Block("PingID", PingID=1, OldestUnacked=0), packet_id=3, flags=0x80)
+    else:
+        msg = Message("ChatFromViewer", Block("AgentData", AgentID=UUIDS[0], SessionID=UUIDS[2]),
+                      Block("ChatData", Message="a", Type=1, Channel=0), packet_id=3, flags=0x80)
+    msg.extra = extra
+    data = SER.serialize(msg)
+    deser = UDPMessageDeserializer(settings=_SETTINGS)
+    got = deser.deserialize(data)
+    return got.name == msg.name and bytes(got.extra) == extra and got.send_flags == 0x80 and got.to_dict() == msg.to_dict()
+
+
 def _shard_zc():
     import inspect
     base = zerocoded_real
